@@ -130,7 +130,7 @@ def split_oracle(impl_line):
 
 
 class TwoPhase:
-    def __init__(self, name, mode, cases, extra_oracle=None, monitor=None, nontrivial=None, describe="", timeout=600, key=None):
+    def __init__(self, name, mode, cases, extra_oracle=None, monitor=None, nontrivial=None, describe="", timeout=300, key=None):
         self.name, self.mode, self.cases = name, mode, cases
         self.extra_oracle = extra_oracle or (lambda case: "")
         self.monitor = monitor or (lambda c, i, m: i == m)
